@@ -113,17 +113,21 @@ def oracle(ck, extended):
     # pyramids of signals / images above every blocking / tiling threshold (gen.scale_shapes_*), every mode, per-axis pairs
     wl = ['db2', 'bior2.4', 'sym5', 'db7', 'db4', 'haar']
     fl1 = lambda sh: gen.float_tensor(ck.nprng, sh)
+    from .. import history as _hist
     for k, shp in enumerate(gen.scale_shapes_1d(ck.tier)):
         for m in gen.MODES5:
             w = pywt.Wavelet(wl[(k + m) % len(wl)]); L = w.dec_len
             yl, yh = make_pyramid(rng, 1, shp[0], shp[1], shp[2], L, L, m, 1 + (k + m) % 3, fl1)
-            rt.guard(ck, oracle_inv, ck, 1, m, (np.array(w.rec_lo), np.array(w.rec_hi)), yl, yh, tol=1e-9, named=w.name)
+            # every other case with the process default dtype at CALL time back at float32 (history bit 0x8000), deterministically
+            with _hist.force(0x8000 if (k + m) % 2 else 0):
+                rt.guard(ck, oracle_inv, ck, 1, m, (np.array(w.rec_lo), np.array(w.rec_hi)), yl, yh, tol=1e-9, named=w.name)
     for k, shp in enumerate(gen.scale_shapes_2d(ck.tier)):
         for m in gen.MODES5:
             w = pywt.Wavelet(wl[(k + m) % len(wl)]); w2 = pywt.Wavelet(wl[(k + m + 3) % len(wl)]); four = (k + m) % 3 == 0
             yl, yh = make_pyramid(rng, 2, shp[0], shp[1], (shp[2], shp[3]), w.dec_len, w2.dec_len if four else w.dec_len, m, 1 + (k + m) % 3, fl1)
             filt = (np.array(w.rec_lo), np.array(w.rec_hi), np.array(w2.rec_lo), np.array(w2.rec_hi)) if four else (np.array(w.rec_lo), np.array(w.rec_hi))
-            rt.guard(ck, oracle_inv, ck, 2, m, filt, yl, yh, tol=1e-9, named=None if four else w.name)
+            with _hist.force(0x8000 if (k + m) % 2 else 0):
+                rt.guard(ck, oracle_inv, ck, 2, m, filt, yl, yh, tol=1e-9, named=None if four else w.name)
     for name in named_wavelets(rng, 40 if q else 106):
         w = pywt.Wavelet(name); L = w.dec_len
         m = rng.choice(gen.MODES5); J = rng.randint(1, 3)
